@@ -36,16 +36,21 @@ def run(ctx: core.Ctx) -> core.Outcome:
         traces = [{"id": "ids", "ev": ev}]
         # takeover histories: register / connect / register again (same and colliding engines) / disconnect / register
         hist = []
+        ever_registered = set()
         cases = [("pc", "uod"), ("a_b", "c"), ("a", "b_c"), ("a b", "c"), ("a%20b", "c"), ("x/y", "z"), ("x", "y_z"), ("x_y", "z")]
-        for _ in range(40 if ctx.quick else 400):
+        for _ in range(200 if ctx.quick else 1500):
             p = rnd.choice(cases)
             eid = world.agg.create_engine_id(world.register_msg(*p))
             k = rnd.random()
             if k < 0.5:
                 r = world.register(*p)
+                if r.success:
+                    ever_registered.add(eid)
                 hist.append({"a": "register", "c": p[0], "u": p[1], "id": eid, "ok": bool(r.success)})
             elif k < 0.8:
-                if world.agg.has_registered_engine_id(eid) and not world.dispatcher.has_connected_engine_id(eid):
+                # an engine keeps its id across reconnects: after a dropped websocket (the aggregator forgets the engine data) it
+                # may open a new one without registering again; it is then connected but not registered
+                if eid in ever_registered and not world.dispatcher.has_connected_engine_id(eid):
                     world.connect_ws(eid)
                     if world.dispatcher.has_connected_engine_id(eid):
                         hist.append({"a": "connect", "c": p[0], "u": p[1], "id": eid})
